@@ -10,7 +10,10 @@ use core::{convert::TryFrom, marker::PhantomData};
 use tinyvec::ArrayVec;
 
 use crate::{
-    constants::{MAX_HSS_PUBLIC_KEY_LENGTH, REF_IMPL_MAX_PRIVATE_KEY_SIZE},
+    constants::{
+        lms_public_key_length, lms_signature_length, MAX_HSS_PUBLIC_KEY_LENGTH,
+        REF_IMPL_MAX_PRIVATE_KEY_SIZE,
+    },
     hss::{aux::hss_is_aux_data_used, reference_impl_private_key::Seed},
     signature::{Error, SignerMut, Verifier},
     HashChain, Signature, VerifierSignature,
@@ -191,6 +194,24 @@ pub fn hss_sign_mut<H: HashChain>(
     )
 }
 
+fn hss_signature_length<H: HashChain>(parameters: &[HssParameter<H>]) -> usize {
+    let hash_size = H::OUTPUT_SIZE as usize;
+    let mut length = core::mem::size_of::<u32>();
+
+    for (level, parameter) in parameters.iter().enumerate() {
+        length += lms_signature_length(
+            hash_size,
+            parameter.get_lmots_parameter().get_num_winternitz_chains() as usize,
+            parameter.get_lms_parameter().get_tree_height() as usize,
+        );
+        if level + 1 < parameters.len() {
+            length += lms_public_key_length(hash_size);
+        }
+    }
+
+    length
+}
+
 fn hss_sign_core<H: HashChain>(
     message: Option<&[u8]>,
     message_mut: Option<&mut [u8]>,
@@ -211,6 +232,11 @@ fn hss_sign_core<H: HashChain>(
         .compressed_parameter
         .to::<H>()
         .map_err(|_| Error::new())?;
+    // The signature is assembled in a vector whose length field is 16 bits wide
+    if hss_signature_length(&parameters) > u16::MAX as usize {
+        return Err(Error::new());
+    }
+
     let mut expanded_aux_data = HssPrivateKey::get_expanded_aux_data(
         aux_data,
         &rfc_private_key,
